@@ -115,6 +115,32 @@ def strip_debug_regions(b):
     return {"locals": b.locals, "blocks": blocks, "arg_count": b.arg_count}
 
 
+def skeleton(b):
+    """check-insensitive structure of a body: what it calls, stores, builds and branches on, outside
+    debug-only regions.  Compiler-inserted checks (overflow asserts, alignment / null checks, which
+    come and go with -Cdebug-assertions and differ per configuration) are not part of it."""
+    dbg = b.debug_only_blocks()
+    calls, stores, aggs, switches = [], 0, [], 0
+    for i, blk in enumerate(b.blocks):
+        if i in dbg:
+            continue
+        for s in blk["stmts"]:
+            if s["k"] == "assign":
+                if s["lhs"]["p"] and "deref" in s["lhs"]["p"]:
+                    stores += 1
+                if s["rv"]["k"] == "aggregate" and s["rv"].get("agg") == "adt":
+                    aggs.append(s["rv"]["adt"] + "::" + (s["rv"].get("variant_name") or ""))
+        t = blk["term"]
+        if t["k"] == "call":
+            n = callee_name(t)
+            if n.startswith("core::panicking::panic_nounwind") or n.startswith("core::ub_checks") or "precondition_check" in n:
+                continue
+            calls.append(n + "<" + ",".join(t.get("generic_args", [])) + ">")
+        elif t["k"] == "switch" and not is_debug_only_switch(b, i):
+            switches += 1
+    return hashlib.sha256(json.dumps([sorted(calls), stores, sorted(aggs), switches]).encode()).hexdigest()[:16]
+
+
 def cross_C20(cfgs, add):
     """cfgs: list of (cfg dict, Facts). add(rule, fn, site, ok, how, detail)"""
     # (1) same code in every feature set: bodies of repr::* and inherent LeanString methods
@@ -127,17 +153,17 @@ def cross_C20(cfgs, add):
         if len(lst) < 2:
             continue
         ref_cfg, ref = lst[0]
-        reffp = {p: fingerprint(b.j) for p, b in ref.bodies.items() if p.startswith("repr::") or p.startswith("LeanString::")}
+        reffp = {p: skeleton(b) for p, b in ref.bodies.items() if p.startswith("repr::") or p.startswith("LeanString::")}
         for cfg, F in lst[1:]:
             diffs = []
             for p, fp in reffp.items():
                 b = F.bodies.get(p)
                 if b is None:
                     diffs.append(p + " (missing)")
-                elif fingerprint(b.j) != fp:
+                elif skeleton(b) != fp:
                     diffs.append(p)
             ncmp += len(reffp)
-            add("C20-samecode", "%s vs %s" % (ref_cfg["name"], cfg["name"]), "core-bodies", not diffs, "%d core bodies have identical MIR in both feature sets" % len(reffp),
+            add("C20-samecode", "%s vs %s" % (ref_cfg["name"], cfg["name"]), "core-bodies", not diffs, "%d core bodies have the same calls / stores / aggregates / branches in both feature sets" % len(reffp),
                 "feature set changes the code of core functions (features must only add impls): %s" % diffs[:5])
     # (2) debug and nodebug differ only inside debug regions
     bykey = {}
@@ -155,11 +181,9 @@ def cross_C20(cfgs, add):
                     diffs.append(p + " (missing without debug assertions)")
                     continue
                 n += 1
-                a = hashlib.sha256(json.dumps(_strip(strip_debug_regions(b1)), sort_keys=True).encode()).hexdigest()
-                c = hashlib.sha256(json.dumps(_strip(strip_debug_regions(b2)), sort_keys=True).encode()).hexdigest()
-                if a != c:
+                if skeleton(b1) != skeleton(b2):
                     diffs.append(p)
-            add("C20-debug-vs-release", "%s vs %s" % (c1["name"], c2["name"]), "outside-debug-regions", not diffs, "%d bodies identical outside debug-only regions" % n,
+            add("C20-debug-vs-release", "%s vs %s" % (c1["name"], c2["name"]), "outside-debug-regions", not diffs, "%d bodies have the same calls / stores / aggregates / branches outside debug-only regions" % n,
                 "bodies differ between debug-assertions on/off outside `debug_assert!`/`cfg!(debug_assertions)` regions: %s" % diffs[:5])
     return ncmp
 
